@@ -428,3 +428,38 @@ Proof.
   destruct (sphere_centre_mirror Rc L M N (Rabs Rc) HR Hd Hw Hside) as (A & B & C).
   cbv zeta. split; [exact A|]. split; [exact B|]. split; [exact C|ring].
 Qed.
+
+(** ** the hypotheses are satisfiable (the vertex of each surface is a witness) *)
+Lemma vertex_on_sheet Rc k : Rc <> 0 -> on_vertex_sheet Rc k 0 0 0.
+Proof.
+  intros HR. unfold on_vertex_sheet, on_conic.
+  replace (1 - (1 + k) * (0*0 + 0*0) / (Rc*Rc)) with 1 by (field; assumption).
+  rewrite sqrt_1. repeat split; try ring. lra.
+Qed.
+Ltac hyps_tac := repeat match goal with |- on_vertex_sheet _ _ _ _ _ => apply vertex_on_sheet; lra | |- _ /\ _ => split | |- _ <> _ => (lra || (let H := fresh in intro H; field_simplify in H; lra)) | |- _ => (lra || (field; lra)) end.
+Example conic_mirror_hyps :   (* ellipsoid Rc = -80, k = -1/4: foci at -160/3 and -160 *)
+  let Rc := -80 in let e := / 2 in
+  1 + e <> 0 /\ 1 - e <> 0 /\ on_vertex_sheet Rc (- (e*e)) 0 0 0 /\
+  e*0 + focus Rc e <> 0 /\ focus Rc (- e) - e*0 <> 0.
+Proof. cbv zeta. unfold focus. hyps_tac. Qed.
+Example hyperboloid_mirror_hyps :   (* Rc = -90, k = -4 (the Cassegrain secondary of the system check) *)
+  let Rc := -90 in let e := 2 in
+  1 + e <> 0 /\ 1 - e <> 0 /\ on_vertex_sheet Rc (- (e*e)) 0 0 0 /\
+  e*0 + focus Rc e <> 0 /\ focus Rc (- e) - e*0 <> 0.
+Proof. cbv zeta. unfold focus. replace (1 + - (2)) with (-1) by ring. hyps_tac. Qed.
+Example conic_refract_hyps :  (* plano-hyperbolic singlet n = 3/2, Rc = -50: focus 100 behind the vertex *)
+  let Rc := -50 in let n1 := 3/2 in let n2 := 1 in
+  Rc <> 0 /\ n2 <> 0 /\ 1 - n1/n2 <> 0 /\ on_vertex_sheet Rc (- (n1/n2*(n1/n2))) 0 0 0 /\
+  focus Rc (- (n1/n2)) - n1/n2*0 <> 0 /\ focus Rc (- (n1/n2)) = 100.
+Proof. cbv zeta. unfold focus. hyps_tac. Qed.
+Example aplanatic_hyps :      (* Rc = 10, air -> n = 2: aimed at z = 30, imaged at z = 15 *)
+  let Rc := 10 in let n1 := 1 in let n2 := 2 in
+  on_vertex_sheet Rc 0 0 0 0 /\ aplanatic_object Rc n1 n2 = 30 /\ aplanatic_image Rc n1 n2 = 15 /\
+  0 < 0*0 + 0*0 + (0 - aplanatic_image Rc n1 n2)*(0 - aplanatic_image Rc n1 n2) /\
+  0 < (0 - aplanatic_object Rc n1 n2) * (0 - aplanatic_image Rc n1 n2).
+Proof.
+  cbv zeta. unfold aplanatic_object, aplanatic_image. hyps_tac.
+Qed.
+Example sphere_centre_hyps : let Rc := -80 in let w := 80 in
+  Rc <> 0 /\ 0*0 + 0*0 + 1*1 = 1 /\ w*w = Rc*Rc /\ w * 1 * Rc < 0.
+Proof. cbv zeta. repeat split; lra. Qed.
